@@ -437,6 +437,15 @@ impl ClientModel {
                 }
                 Ok(())
             }
+            CAct::PingBurst { ts, n } => {
+                no_events("ping")?;
+                let got: Vec<Option<u32>> = outs.iter().filter_map(|x| match &x.m { M::UserControl { code: 7, timestamp, .. } => Some(*timestamp), _ => None }).collect();
+                let want: Vec<Option<u32>> = (0..*n).map(|k| Some(ts.wrapping_add(k as u32))).collect();
+                if got != want {
+                    return v("ping/burst-not-echoed-one-by-one", format!("{} ping requests in one input call must be echoed one by one with {:?}, got {:?} (err {:?})", n, want, got, o.err));
+                }
+                Ok(())
+            }
             CAct::Ack { .. } | CAct::UnknownCommand | CAct::Raw { .. } | CAct::Clock { .. } => no_events("other"),
         }
     }
@@ -540,6 +549,7 @@ pub fn actions_for(m: &ClientModel, max_outstanding: usize, extended: bool) -> V
     a.push(CAct::MetaMalformed { msid: m.active.unwrap_or(5), shape: 0 });
     a.push(CAct::MetaMalformed { msid: m.active.unwrap_or(5), shape: 1 });
     a.push(CAct::Ping { ts: 0x0A0B_0C0D });
+    a.push(CAct::PingBurst { ts: 0xFFFF_FFFF, n: 3 });
     a.push(CAct::Ack { n: 100 });
     a.push(CAct::UnknownCommand);
     a
